@@ -58,6 +58,8 @@ type LoopInfo struct {
 	body    map[int]bool
 	latches []*ssa.BasicBlock
 	lc      *LoopContract
+	confined      []ssa.Value
+	confinedSorts map[Sort]bool
 	preState *State // state at header (after havoc)
 	measure  Term
 	hasMeasure bool
@@ -109,6 +111,7 @@ type FnCtx struct {
 	pureMode  bool
 	pkgOverride *types.Package
 	initPhase   bool
+	rangeGhost  map[*ssa.Range]string
 	collectApps bool
 	apps        []specApp
 	opaqueRec   bool // recursive spec functions are uninterpreted; only explicit unfoldings are visible
@@ -163,6 +166,12 @@ func (fc *FnCtx) define(name string, t Term) Term {
 	// keep small terms inline
 	if len(t.S) < 24 {
 		return t
+	}
+	if t.Sort.IsArr() && !fc.pureMode {
+		// heap-sized terms are named by an equation rather than a macro, so that the
+		// solver does not expand a chain of n stores into a term of size 2^n
+		fc.decls = append(fc.decls, Decl{fc.curBlk, fmt.Sprintf("(declare-const %s %s)\n(assert (= %s %s))", smtName(name), t.Sort, smtName(name), t.S)})
+		return Term{smtName(name), t.Sort}
 	}
 	fc.decls = append(fc.decls, Decl{fc.curBlk, fmt.Sprintf("(define-fun %s () %s %s)", smtName(name), t.Sort, t.S)})
 	return Term{smtName(name), t.Sort}
@@ -268,7 +277,7 @@ func (fc *FnCtx) typeFacts(t types.Type, v Value, next Term) []Term {
 				out = append(out, f)
 			}
 			out = append(out, Lt(v.Obj(), next), Ge(v.Off(), IntLit(0)),
-				Le(IntLit(0), v.Len()), Le(v.Len(), v.Cap()), Le(v.Cap(), Term{"maxSliceCap", SInt}),
+				Le(IntLit(0), v.Len()), Le(v.Len(), v.Cap()), Le(Mul(v.Cap(), IntLit(fc.eng.sizeofType(u.Elem()))), Term{"maxSliceCap", SInt}),
 				Implies(Eq(v.Obj(), IntLit(0)), And(Eq(v.Cap(), IntLit(0)), Eq(v.Off(), IntLit(0)))))
 		}
 	case *types.Struct:
@@ -286,6 +295,10 @@ func (fc *FnCtx) typeFacts(t types.Type, v Value, next Term) []Term {
 	case *types.Map, *types.Chan:
 		if v.K == KLeaf {
 			out = append(out, Lt(v.T, next), Ge(v.T, IntLit(0)))
+			if _, isMap := u.(*types.Map); isMap {
+				out = append(out, Or(Eq(v.T, IntLit(0)), Eq(otypeOf(v.T), IntLit(fc.eng.typeIDByName(types.TypeString(t, nil))))))
+				out = append(out, Ge(Select(fc.mlenTerm(), v.T), IntLit(0)))
+			}
 		}
 	case *types.Interface:
 		if v.K == KIface {
@@ -294,6 +307,13 @@ func (fc *FnCtx) typeFacts(t types.Type, v Value, next Term) []Term {
 		}
 	}
 	return out
+}
+
+func (fc *FnCtx) mlenTerm() Term {
+	if fc.cur != nil {
+		return fc.cur.mlen
+	}
+	return fc.entry.mlen
 }
 
 func intRange(bits int, signed bool) (Term, Term) {
@@ -459,8 +479,30 @@ func (fc *FnCtx) translate() {
 	fc.analyze()
 	fc.curBlk = -1
 	st := fc.initialState()
+	// one "visited" ghost set per range-over-map iterator
+	fc.rangeGhost = map[*ssa.Range]string{}
+	for _, b := range fn.Blocks {
+		for _, ins := range b.Instrs {
+			if r, ok := ins.(*ssa.Range); ok {
+				if _, isMap := r.X.Type().Underlying().(*types.Map); isMap {
+					name := "vis_" + r.Name()
+					fc.rangeGhost[r] = name
+					st.ghost[name] = Term{"((as const (Array Int Bool)) false)", SArr(SInt, SBool)}
+				}
+			}
+		}
+	}
 	fc.entry = st.clone()
 	fc.assume(Gt(st.next, IntLit(0)))
+	// Object ids are abstract: take every object allocated before entry to have an id
+	// above all machine integers, so that every reference stored in the entry heap
+	// (and every integer) is below next0.
+	fc.assume(Gt(st.next, IntLitBig(pow2(65))))
+	{
+		h := st.heap[SInt]
+		body := Lt(Select(Select(h, Term{"o!e", SInt}), Term{"f!e", SInt}), st.next)
+		fc.assume(Term{fmt.Sprintf("(forall ((o!e Int) (f!e Int)) (! %s :pattern (%s)))", body.S, Select(Select(h, Term{"o!e", SInt}), Term{"f!e", SInt}).S), SBool})
+	}
 	// parameters
 	for _, p := range fn.Params {
 		sh := shapeOf(p.Type(), fc.mode)
@@ -659,14 +701,49 @@ func (fc *FnCtx) loopHeader(b *ssa.BasicBlock, li *LoopInfo, preds []*ssa.BasicB
 	// 2. havoc
 	st := preState.clone()
 	modSorts, modAll, ghostMod, allocs := fc.loopEffects(li)
+	// Sorts written in pre-existing objects are havocked; if the loop only
+	// allocates, every heap still changes (fresh objects are initialised) but
+	// objects that existed at loop entry keep their contents.
+	oq := Term{"o!lf", SInt}
+	var keep []Term
 	for _, hs := range heapSorts {
 		if modAll || modSorts[hs] {
 			st.heap[hs] = fc.declare(fmt.Sprintf("H_%s_loop%d", sortTag(hs), li.ord), heapSort(hs))
+		} else if allocs {
+			nh := fc.declare(fmt.Sprintf("H_%s_loop%d", sortTag(hs), li.ord), heapSort(hs))
+			eq := Eq(Select(nh, oq), Select(preState.heap[hs], oq))
+			if li.confinedSorts[hs] {
+				var ex []Term
+				known := true
+				for _, a := range li.confined {
+					if p, ok := fc.vals[a]; ok && (p.K == KPtr || p.K == KSlice) {
+						ex = append(ex, Eq(oq, p.Obj()))
+					} else {
+						known = false
+					}
+				}
+				if !known {
+					st.heap[hs] = nh
+					continue // cannot name the written object: no frame for this sort
+				}
+				eq = Or(append(ex, eq)...)
+			}
+			keep = append(keep, eq)
+			st.heap[hs] = nh
 		}
 	}
 	if modAll || modSorts["mdom"] {
 		st.mdom = fc.declare(fmt.Sprintf("mdom_loop%d", li.ord), st.mdom.Sort)
 		st.mlen = fc.declare(fmt.Sprintf("mlen_loop%d", li.ord), st.mlen.Sort)
+	} else if allocs {
+		nd := fc.declare(fmt.Sprintf("mdom_loop%d", li.ord), st.mdom.Sort)
+		nl := fc.declare(fmt.Sprintf("mlen_loop%d", li.ord), st.mlen.Sort)
+		keep = append(keep, Eq(Select(nd, oq), Select(preState.mdom, oq)), Eq(Select(nl, oq), Select(preState.mlen, oq)))
+		st.mdom, st.mlen = nd, nl
+	}
+	for _, k := range keep {
+		body := Implies(Lt(oq, preState.next), k)
+		fc.assume(Term{fmt.Sprintf("(forall ((o!lf Int)) %s)", body.S), SBool})
 	}
 	if allocs {
 		nn := fc.declare(fmt.Sprintf("next_loop%d", li.ord), SInt)
@@ -928,6 +1005,8 @@ func (fc *FnCtx) autoInvariants(li *LoopInfo, env *Env) []descTerm {
 func (fc *FnCtx) loopEffects(li *LoopInfo) (mod map[Sort]bool, all bool, ghosts map[string]bool, allocs bool) {
 	mod = map[Sort]bool{}
 	ghosts = map[string]bool{}
+	li.confined = nil
+	li.confinedSorts = map[Sort]bool{}
 	for _, b := range fc.fn.Blocks {
 		if !li.body[b.Index] {
 			continue
@@ -935,23 +1014,45 @@ func (fc *FnCtx) loopEffects(li *LoopInfo) (mod map[Sort]bool, all bool, ghosts 
 		for _, ins := range b.Instrs {
 			switch x := ins.(type) {
 			case *ssa.Store:
+				if base := addrBase(x.Addr); base != nil {
+					if a, ok := base.(*ssa.Alloc); ok && li.body[a.Block().Index] {
+						allocs = true
+						continue // store into an object allocated inside the loop
+					}
+					if a, ok := base.(*ssa.Alloc); ok {
+						// store confined to one local object allocated before the loop
+						li.confined = append(li.confined, a)
+						fc.sortsOfType(x.Val.Type(), li.confinedSorts)
+						allocs = true
+						continue
+					}
+				}
+				if root := addrRoot(x.Addr); root != nil && fc.definedOutside(root, li) {
+					// store through a pointer/slice value fixed before the loop: confined to its object
+					li.confined = append(li.confined, root)
+					fc.sortsOfType(x.Val.Type(), li.confinedSorts)
+					allocs = true
+					continue
+				}
 				fc.sortsOfType(x.Val.Type(), mod)
+			case *ssa.Next:
+				if r, ok := x.Iter.(*ssa.Range); ok {
+					if g, ok := fc.rangeGhost[r]; ok {
+						ghosts[g] = true
+					}
+				}
+			case *ssa.Range:
+				if g, ok := fc.rangeGhost[x]; ok {
+					ghosts[g] = true
+				}
 			case *ssa.MapUpdate:
 				mod["mdom"] = true
 				fc.sortsOfType(x.Value.Type(), mod)
 				allocs = true
 			case *ssa.Alloc, *ssa.MakeSlice, *ssa.MakeMap, *ssa.MakeClosure, *ssa.MakeChan, *ssa.MakeInterface:
 				allocs = true
-				// allocation zero-initialises every heap at the new object
-				for _, hs := range heapSorts {
-					mod[hs] = true
-				}
-				mod["mdom"] = true
 			case *ssa.Convert:
 				allocs = true
-				for _, hs := range heapSorts {
-					mod[hs] = true
-				}
 			case ssa.CallInstruction:
 				eff := fc.callEffects(x.Common())
 				if eff.all {
@@ -965,10 +1066,6 @@ func (fc *FnCtx) loopEffects(li *LoopInfo) (mod map[Sort]bool, all bool, ghosts 
 				}
 				if eff.allocs {
 					allocs = true
-					for _, hs := range heapSorts {
-						mod[hs] = true
-					}
-					mod["mdom"] = true
 				}
 			}
 		}
@@ -1111,13 +1208,9 @@ func joinNonEmpty(parts ...string) string {
 // nonNilTerm: non-nil-ness of a pointer-like value (zero Term if not pointer-like).
 func nonNilTerm(v Value, t types.Type) Term {
 	switch t.Underlying().(type) {
-	case *types.Pointer, *types.Interface:
-		if v.K == KPtr || v.K == KIface {
+	case *types.Pointer:
+		if v.K == KPtr {
 			return Not(Eq(v.E[0].T, IntLit(0)))
-		}
-	case *types.Map, *types.Signature, *types.Chan:
-		if v.K == KLeaf && v.T.Sort == SInt {
-			return Not(Eq(v.T, IntLit(0)))
 		}
 	}
 	return Term{}
@@ -1131,6 +1224,57 @@ func (c *Contract) isNilable(name string) bool {
 		if n == name || n == "*" {
 			return true
 		}
+	}
+	return false
+}
+
+// addrBase follows FieldAddr/IndexAddr chains to the base pointer value.
+func addrBase(v ssa.Value) ssa.Value {
+	for i := 0; i < 20; i++ {
+		switch x := v.(type) {
+		case *ssa.FieldAddr:
+			v = x.X
+		case *ssa.IndexAddr:
+			if _, isPtr := x.X.Type().Underlying().(*types.Pointer); !isPtr {
+				return nil // slice element: base object unknown
+			}
+			v = x.X
+		default:
+			return v
+		}
+	}
+	return nil
+}
+
+// addrRoot follows FieldAddr/IndexAddr chains (through slices too) to the
+// pointer or slice value whose object the address lies in.
+func addrRoot(v ssa.Value) ssa.Value {
+	for i := 0; i < 20; i++ {
+		switch x := v.(type) {
+		case *ssa.FieldAddr:
+			v = x.X
+		case *ssa.IndexAddr:
+			if _, isSlice := x.X.Type().Underlying().(*types.Slice); isSlice {
+				return x.X
+			}
+			v = x.X
+		default:
+			return v
+		}
+	}
+	return nil
+}
+
+// definedOutside: the value is fixed before the loop starts.
+func (fc *FnCtx) definedOutside(v ssa.Value, li *LoopInfo) bool {
+	switch x := v.(type) {
+	case *ssa.Parameter, *ssa.FreeVar, *ssa.Global:
+		return true
+	case ssa.Instruction:
+		if _, isPhi := v.(*ssa.Phi); isPhi && x.Block() == li.header {
+			return false
+		}
+		return !li.body[x.Block().Index]
 	}
 	return false
 }
